@@ -43,7 +43,7 @@ func sharedTree(t geom.T, seen map[string]geom.T) geom.T {
 func init() {
 	engine.Register(&engine.Check{
 		ID: "C05", Level: "exploration",
-		Rule:   "WKT-expressible corpus: per layout XY/XYZ/XYM/XYZM every Point (empty/1), LineString (0,2,3 points), Polygon (0..3 closed rings of 4/5 points, closing point differing in M), MultiPoint (every present/EMPTY pattern of length 0..6, thorough 7), MultiLineString (every sequence of 0..5 (thorough 6) lines of 0/2/3 points), MultiPolygon (every sequence of 0..5 (thorough 6) polygons over {EMPTY, 1 ring, 2 rings, 3 rings}), collections of 0..3 members over a 9-member menu incl. empty members and nested collections to depth 3, empty collections with a fixed layout; plus a float lattice (+-2^k for all k, +-1 ulp neighbours, 10^k and neighbours, all-ones mantissas, -0) placed in points. (a) wkt.Marshal text (each call preceded by an encode that fails after partial output) parsed by wkt.Unmarshal and by the independent reference reader equals the model bit for bit; (b) every combination of 144 spelling variants (3 cases x 3 whitespace styles x bare/parenthesised multipoint members x attached/detached suffix x 4 number notations) written by the reference writer parses with wkt.Unmarshal to the model. distinct_nontrivial = distinct (geometry, spelling) pairs with at least one coordinate Also: lines that return to their first position in X,Y only or in every ordinate, lines, rings and multilinestring members whose closing position is +0 where the first is -0 (and the reverse) in one ordinate, and the same positions handed to the encoder as a LinearRing (must give the LINESTRING text). Round 7: trees in which equal members are ONE object (the same *GeometryCollection / *Point at several places), and 16 spellings in which all whitespace is one of TAB, LF, CR alone, CRLF. Round 8: lines, multipoints and polygons of 1000 and 20000 positions. Round 9: a point inside 10..500 collections (every depth around 16, 32, 64) in three member shapes; geometries with an SRID set.",
+		Rule:   "WKT-expressible corpus: per layout XY/XYZ/XYM/XYZM every Point (empty/1), LineString (0,2,3 points), Polygon (0..3 closed rings of 4/5 points, closing point differing in M), MultiPoint (every present/EMPTY pattern of length 0..6, thorough 7), MultiLineString (every sequence of 0..5 (thorough 6) lines of 0/2/3 points), MultiPolygon (every sequence of 0..5 (thorough 6) polygons over {EMPTY, 1 ring, 2 rings, 3 rings}), collections of 0..3 members over a 9-member menu incl. empty members and nested collections to depth 3, empty collections with a fixed layout; plus a float lattice (+-2^k for all k, +-1 ulp neighbours, 10^k and neighbours, all-ones mantissas, -0) placed in points. (a) wkt.Marshal text (each call preceded by an encode that fails after partial output) parsed by wkt.Unmarshal and by the independent reference reader equals the model bit for bit; (b) every combination of 144 spelling variants (3 cases x 3 whitespace styles x bare/parenthesised multipoint members x attached/detached suffix x 4 number notations) written by the reference writer parses with wkt.Unmarshal to the model. distinct_nontrivial = distinct (geometry, spelling) pairs with at least one coordinate Also: lines that return to their first position in X,Y only or in every ordinate, lines, rings and multilinestring members whose closing position is +0 where the first is -0 (and the reverse) in one ordinate, and the same positions handed to the encoder as a LinearRing (must give the LINESTRING text). Round 7: trees in which equal members are ONE object (the same *GeometryCollection / *Point at several places), and 16 spellings in which all whitespace is one of TAB, LF, CR alone, CRLF. Round 8: lines, multipoints and polygons of 1000 and 20000 positions. Round 9: a point inside 10..500 collections (every depth around 16, 32, 64) in three member shapes; geometries with an SRID set. Round 10: rings and lines whose positions coincide (one-point rings, out-and-back rings, collapsed holes, lines a-a and a-b-a).",
 		Run:    c05Run,
 		Replay: func(c *engine.Ctx, kind string, raw json.RawMessage) { c05Exec(c, decodeCase[c05Case](raw)) },
 		Assumptions: []string{
